@@ -34,7 +34,9 @@ JudgeToBytes(e) ==
        (IF x.k = "ok"
         THEN IF e.out.k # "ok" THEN {"C04"}
              ELSE (IF Len(e.out.bytes) = WireLen(m) THEN {} ELSE {"C04"})
-                  \cup (IF e.out.bytes = x.bytes THEN {} ELSE {"C01", "C04"})
+                  \* the header's token-length nibble is written as stored (it can disagree with the
+                  \* token when the public header field was replaced); the limit rule counts the bytes sent
+                  \cup (IF e.out.bytes = [x.bytes EXCEPT ![1] = (@ \div 16) * 16 + e.msg.tkl] THEN {} ELSE {"C01", "C04"})
         ELSE IF e.out.k # "err" THEN {"C04"}
              ELSE IF x.e = "InvalidPacketLength" /\ e.out.e # "InvalidPacketLength" THEN {"C04"} ELSE {})
 
